@@ -414,7 +414,18 @@ class Gen:
         via = {'h': h}
         if what in ('children', 'roots'):
             cur = self.S['wbs'][on]['roots'] if on in self.wn else self.T[on]['children']
-            form = self.r.choice(['append', 'remove', 'move', 'sort', 'reorder', 'insert', 'remove_all'])
+            form = self.r.choice(['append', 'remove', 'move', 'sort', 'reorder', 'insert', 'remove_all', 'departed', 'departed'])
+            departed = [m for m in rec['members'] if m in self.T and m not in cur]
+            if form == 'departed' and departed and cur:
+                x = self.pick(departed)
+                k = self.r.choice(['task', 'anchor', 'late'])
+                if k == 'task':
+                    return {'op': 'l_move', 'via': via, 'arg': self.arg([x]), self.r.choice(['before', 'after']): self.pick(cur)}
+                if k == 'anchor':
+                    return {'op': 'l_move', 'via': via, 'arg': self.arg([self.pick(cur)]), self.r.choice(['before', 'after']): x}
+                if len(cur) >= 2:
+                    t, a = self.r.sample(cur, 2)
+                    return {'op': 'l_move', 'via': via, 'arg': self.arg([t, x], False), self.r.choice(['before', 'after']): a}
             if form == 'append':
                 t = self.pick([x for x in self.detached_roots if self.can_adopt(x, on)])
                 if t:
@@ -503,7 +514,9 @@ class Gen:
 
     def g_observe(self):
         w = self.pick(self.wn)
-        form = self.r.choice(['getitem', 'tasks', 'critical_path', 'str', 'all'])
+        form = self.r.choice(['getitem', 'tasks', 'critical_path', 'str', 'all', 'w_setattr', 'w_setattr'])
+        if form == 'w_setattr':
+            return {'op': 'w_setattr', 'w': w, 'attr': self.r.choice(['title', 'owner', 'rev']), 'value': self.r.choice(['T1', 'T2', 7, None])}
         if form == 'getitem':
             return {'op': 'observe', 'what': 'getitem', 'w': w, 'id': self.r.choice((self.u.get('idpool') or [1, 2, 3]) + [0, 'zz'])}
         if form == 'all':
